@@ -347,7 +347,7 @@ class Interp:
         if name == "Softplus" and len(args) == 1 and isinstance(args[0], np.ndarray):
             # onnx.reference evaluates log(exp(x) + 1) literally (inf for large x); the meaning is the overflow-free form
             with np.errstate(all="ignore"):
-                return np.logaddexp(0, args[0]).astype(args[0].dtype)
+                return [np.logaddexp(0, args[0]).astype(args[0].dtype)]
         vals = [modelgen.Val(f"i{i}", np.asarray(a), "node") if a is not None else None for i, a in enumerate(args)]
         node = helper.make_node(name, [v.name if v is not None else "" for v in vals], [f"o{j}" for j in range(n_out)], **attrs)
         res = modelgen.eval_node(node, [v for v in vals if v is not None], self.prog.opset)
